@@ -280,6 +280,166 @@ def run_real(code, names=None, variant=0):
     return {"issues": sorted(out)}
 
 
+# --------------------------------------------------------------------------------------------
+# the real code, with a HISTORY: other programs analysed first by the same TIFA instance
+
+HISTORY_APIS = (
+    "tifa_analysis(code) on one report",                    # MAIN_REPORT, explicit code, no clear in between
+    "contextualize_report(clear=False) + tifa_analysis()",  # MAIN_REPORT, the submission swapped, bare call
+    "tifa_analysis(code, report=r) on an own Report",       # a non-default report
+    "Tifa(report=Report()).process_code(code) repeatedly",  # one Tifa object driven by hand
+    "Tifa().process_code(code) repeatedly",                 # one Tifa object on the main report, custom main file
+)
+
+
+def observe_full(t):
+    """What an analysis result says about initialisation / use: the four flow labels as [label, name, line]
+    (duplicates kept) and the (set, read, over) state of every variable on every path."""
+    if not t.success:
+        return {"error": type(t.error).__name__}
+    issues = []
+    for lab, short in FLOW_LABELS.items():
+        for i in t.issues.get(lab, []):
+            issues.append([short, str(i.fields.get("name")), i.location.line])
+    # path ids and the scope ids inside the full names are numbering only: replaced by their rank within this result
+    def rank(keys):
+        try:
+            return {k: i for i, k in enumerate(sorted(keys, key=int))}
+        except (TypeError, ValueError):
+            return {k: i for i, k in enumerate(keys)}
+    prank = rank(list(t.variables.keys()))
+    scopes = []
+    for names in t.variables.values():
+        for full in names:
+            for part in str(full).split("/")[:-1]:
+                if part.isdigit() and part not in scopes:
+                    scopes.append(part)
+    srank = rank(scopes)
+    states = []
+    for path, names in t.variables.items():
+        for full, st in names.items():
+            parts = str(full).split("/")
+            canon = "/".join([str(srank.get(q, q)) for q in parts[:-1]] + parts[-1:])
+            states.append([prank[path], canon, str(st.set), str(st.read), str(st.over)])
+    top = [[str(n), str(st.set), str(st.read)] for n, st in t.top_level_variables.items()]
+    return {"issues": sorted(issues), "states": sorted(states), "top": sorted(top)}
+
+
+def run_fresh_full(code):
+    from pedal.core.commands import contextualize_report, clear_report
+    from pedal.tifa import tifa_analysis
+    clear_report()
+    contextualize_report(code)
+    return observe_full(tifa_analysis())
+
+
+def run_history(earlier, code, api):
+    """Analyse the programs `earlier` and then `code` with ONE TIFA instance, the way `api` says.
+    -> (observation of `code`, [observation of each earlier program, looked at again AFTERWARDS],
+        [observation of each earlier program as it was returned])"""
+    from pedal.core.commands import contextualize_report, clear_report
+    from pedal.core.report import Report
+    from pedal.core.submission import Submission
+    from pedal.tifa import tifa_analysis, Tifa
+    k = HISTORY_APIS.index(api)
+    clear_report()
+    at_return, results = [], []
+    if k == 0:
+        contextualize_report((earlier + [code])[0])
+        for c in earlier:
+            results.append(tifa_analysis(c))
+            at_return.append(observe_full(results[-1]))
+        got = observe_full(tifa_analysis(code))
+        later = [observe_full(tifa_analysis(c)) for c in earlier]          # served from the per-code cache
+    elif k == 1:
+        for c in earlier:
+            contextualize_report(c, clear=False)
+            results.append(tifa_analysis())
+            at_return.append(observe_full(results[-1]))
+        contextualize_report(code, clear=False)
+        got = observe_full(tifa_analysis())
+        later = [observe_full(r) for r in results]
+    elif k == 2:
+        r = Report()
+        for c in earlier:
+            contextualize_report(c, report=r, clear=False)
+            results.append(tifa_analysis(c, report=r))
+            at_return.append(observe_full(results[-1]))
+        contextualize_report(code, report=r, clear=False)
+        got = observe_full(tifa_analysis(code, report=r))
+        later = [observe_full(tifa_analysis(c, report=r)) for c in earlier]
+    else:
+        if k == 3:
+            t = Tifa(report=Report())
+        else:
+            contextualize_report(Submission({"student_main.py": code}, "student_main.py"))
+            t = Tifa()
+        for c in earlier:
+            results.append(t.process_code(c))
+            at_return.append(observe_full(results[-1]))
+        got = observe_full(t.process_code(code))
+        later = [observe_full(r) for r in results]
+    clear_report()
+    return got, later, at_return
+
+
+def history_verdict(earlier, code, api, fresh=None, fresh_earlier=None):
+    """-> list of (what-kind, text): ways the analysis of `code` (or the results handed out for the earlier programs)
+    depends on what the instance analysed before.  The property makes the diagnoses a function of the program's own
+    paths, so every such dependence breaks it."""
+    fresh = fresh if fresh is not None else run_fresh_full(code)
+    got, later, at_return = run_history(earlier, code, api)
+    out = []
+    parts = ("issues", "states", "top") if not ("error" in got or "error" in fresh) else ("error",)
+    for part in parts:
+        a, b = got.get(part), fresh.get(part)
+        if a != b:
+            if isinstance(a, list) and isinstance(b, list):
+                txt = "extra %s, missing %s" % ([x for x in a if x not in b][:4], [x for x in b if x not in a][:4])
+            else:
+                txt = "%s instead of %s" % (str(got)[:120], str(fresh)[:120])
+            out.append(("issues" if part == "issues" else ("analysis-failed" if part == "error" else "variable-states"),
+                        "after %d other program(s) the program under test gets %s: %s" % (len(earlier), part, txt)))
+            break
+    for i, c in enumerate(earlier):
+        fe = fresh_earlier[i] if fresh_earlier else run_fresh_full(c)
+        if at_return[i] == fe and later[i] != fe:
+            part = ([q for q in ("issues", "states", "top") if fe.get(q) != later[i].get(q)] or ["error"])[0]
+            out.append(("earlier-result-changed",
+                        "the result handed out for earlier program #%d changed when later programs were analysed: %s %s -> %s"
+                        % (i + 1, part, str(fe.get(part, fe))[:120], str(later[i].get(part, later[i]))[:120])))
+            break
+    return out, got
+
+
+def back_names(obs_issues, names):
+    """[label, name, line] of observe_full -> the form run_real returns (names mapped back to NAMES, unused at line 0)."""
+    back = {n: NAMES[i] for i, n in enumerate(names)} if names else {}
+    return {"issues": sorted([lab, back.get(n, n), 0 if lab == "unused" else ln] for lab, n, ln in obs_issues)}
+
+
+def odd_earlier_programs():
+    """Earlier programs of kinds the flow generator does not produce: every name assigned / every name read while
+    unassigned (for each identifier spelling), a program that does not parse, an empty one, and constructs that leave
+    their own bookkeeping in the instance (def, class, import, loop-else, del, try, with, comprehension)."""
+    out = []
+    for names in (NAMES, ALT_NAMES, BUILTIN_LIKE_NAMES):
+        out.append("".join("%s = %d\n" % (n, i) for i, n in enumerate(names)))
+        out.append("print(%s)\n" % ", ".join(names))
+        out.append("if 1:\n" + "".join("    %s = 1\n" % n for n in names) + "print(%s)\n" % ", ".join(names))
+    out += ["x = (\n", "", "import math\nx = math.pi\nprint(x)\n",
+            "def f(x):\n    return y\nf(1)\n",
+            "def f():\n    global x\n    x = 1\n    c = 2\nf()\nprint(x)\n",
+            "class A:\n    def m(self):\n        return self.k\nprint(A().m())\n",
+            "for x in [1, 2]:\n    pass\nelse:\n    y = 1\nprint(y)\n",
+            "x = 1\ndel x\nprint(x)\n",
+            "try:\n    x = 1\nexcept Exception as c:\n    print(c)\nprint(x, c)\n",
+            "with open('f') as x:\n    print(y)\n",
+            "print([x for x in y])\n",
+            "while c:\n    x = 1\n    break\nprint(x)\n"]
+    return out
+
+
 def parse_model(ans):
     if not ans.startswith("ok"):
         return {"error": ans}
